@@ -3,7 +3,7 @@ package main
 // C16 end to end: dependency updates travel the real way - the dependency stream's responses, the wrapped hook of
 // discoveryClient.StreamDependencies, the two subscription clients, their streams - over a scripted gRPC stub.
 //   case line: updates separated by " ; ", each  +a,+b,-c  (services added / removed by one dependency response),
-//              or  !cfg / !ep  (the config / endpoint stream fails and is re-created by the client)
+//              or  !cfg / !ep / !dep  (the config / endpoint / dependency stream fails and is re-created by the client)
 //   output:    cfg=<names the config server has been told to watch> ep=<the same for the endpoint server>
 //              after the last update has been processed and the streams have settled (sorted, comma separated)
 
@@ -121,8 +121,15 @@ type c16DepStream struct {
 
 func (st *c16DepStream) Recv() (*api.DependencyDiscoveryResponse, error) {
 	select {
+	case <-st.dead:
+		return nil, errors.New("stream failed")
+	default:
+	}
+	select {
 	case r := <-st.ch:
 		return r, nil
+	case <-st.dead:
+		return nil, errors.New("stream failed")
 	case <-st.ctx.Done():
 		return nil, st.ctx.Err()
 	}
@@ -131,10 +138,18 @@ func (st *c16DepStream) Recv() (*api.DependencyDiscoveryResponse, error) {
 type c16Stub struct {
 	cfg, ep *c16Server
 	deps    chan *api.DependencyDiscoveryResponse
+	mu      sync.Mutex
+	dep     *c16DepStream
+	depMade int
 }
 
 func (s *c16Stub) StreamDependencies(ctx context.Context, in *api.DependencyDiscoveryRequest, opts ...grpc.CallOption) (api.DiscoveryService_StreamDependenciesClient, error) {
-	return &c16DepStream{c16Base: &c16Base{ctx: ctx, dead: make(chan struct{})}, ch: s.deps}, nil
+	st := &c16DepStream{c16Base: &c16Base{ctx: ctx, dead: make(chan struct{})}, ch: s.deps}
+	s.mu.Lock()
+	s.dep = st
+	s.depMade++
+	s.mu.Unlock()
+	return st, nil
 }
 func (s *c16Stub) StreamSvcConfigs(ctx context.Context, opts ...grpc.CallOption) (api.DiscoveryService_StreamSvcConfigsClient, error) {
 	return &c16CfgStream{c16Base: s.cfg.open(ctx), s: s.cfg}, nil
@@ -158,7 +173,8 @@ func runC16e2e(line string) string {
 		sort.Strings(xs)
 		return strings.Join(xs, ",")
 	}
-	// both streams exist before the first update
+	// all three streams exist before the first update
+	waitFor(3*time.Second, func() bool { stub.mu.Lock(); defer stub.mu.Unlock(); return stub.depMade > 0 })
 	waitFor(3*time.Second, func() bool {
 		stub.cfg.mu.Lock()
 		a := stub.cfg.made
@@ -172,6 +188,16 @@ func runC16e2e(line string) string {
 		up = strings.TrimSpace(up)
 		switch up {
 		case "":
+		case "!dep":
+			// the dependency stream fails right after the responses sent so far have been received: what was received is
+			// applied all the same; the client re-creates the stream after about a second
+			stub.mu.Lock()
+			cur, made := stub.dep, stub.depMade
+			stub.mu.Unlock()
+			if cur != nil {
+				cur.kill()
+			}
+			waitFor(4*time.Second, func() bool { stub.mu.Lock(); defer stub.mu.Unlock(); return stub.depMade > made })
 		case "!cfg", "!ep":
 			s := stub.cfg
 			if up == "!ep" {
@@ -231,14 +257,14 @@ func init() {
 		if *fIn != "" {
 			lines = readLines(*fIn)
 		} else {
-			lines = append(lines, "+a,+b,+c", "+a,+b,+c ; +d,-a,-b", "+a ; -a ; +a ; -a ; +a", "+a,+b ; !cfg ; +c,-a ; !ep ; +d")
+			lines = append(lines, "+a,+b,+c", "+a,+b,+c ; +d,-a,-b", "+a ; -a ; +a ; -a ; +a", "+a,+b ; !cfg ; +c,-a ; !ep ; +d", "+a ; +b ; +c ; +d ; +e ; !dep ; +f", "+a,+b ; -a ; +c ; !dep ; -b ; +d ; +e ; !dep")
 			r := newRng(*fSeed)
 			for i := 0; i < *fN; i++ {
 				var ups []string
 				have := map[string]bool{}
 				for j, nj := 0, 1+r.intn(8); j < nj; j++ {
-					if r.chance(1, 12) {
-						ups = append(ups, []string{"!cfg", "!ep"}[r.intn(2)])
+					if r.chance(1, 10) {
+						ups = append(ups, []string{"!cfg", "!ep", "!dep", "!dep"}[r.intn(4)])
 						hist["stream failures"]++
 						continue
 					}
